@@ -6,6 +6,7 @@
 #include <unistd.h>
 #include <atomic>
 #include <cstdio>
+#include <cstdlib>
 #include <cstring>
 namespace wd {
 static std::atomic<long> deadline{0};
@@ -24,7 +25,8 @@ static void * loop(void *) {
     return nullptr;
 }
 static inline void start() { static bool started = false; if (started) return; started = true; pthread_t t; pthread_create(&t, nullptr, loop, nullptr); pthread_detach(t); }
-static inline void arm(int seconds, const char * w) { snprintf(what, sizeof what, "%s", w); deadline.store(now() + seconds); }
+// VERIF_WD_SCALE stretches every limit (set by bin/reach only: the gcov-instrumented build is 10-30x slower)
+static inline void arm(int seconds, const char * w) { static const int scale = getenv("VERIF_WD_SCALE") ? atoi(getenv("VERIF_WD_SCALE")) : 1; snprintf(what, sizeof what, "%s", w); deadline.store(now() + (long)seconds * (scale > 0 ? scale : 1)); }
 static inline void note(const char * n) { snprintf(notebuf, sizeof notebuf, "%s", n); }
 static inline void disarm() { deadline.store(0); }
 }
